@@ -509,7 +509,8 @@ fn cmp_entry(what: &str, got: &bigtools::utils::misc::BigWigAverageOverBedEntry,
     if !close64(got.sum, want.sum, want.abs_sum) {
         errs.push(format!("sum {} != {}", got.sum, want.sum));
     }
-    if !close64(got.mean0, want.sum / want.size as f64, want.abs_sum / want.size as f64) {
+    // (the mean over an empty region is 0/0: not prescribed)
+    if want.size > 0 && !close64(got.mean0, want.sum / want.size as f64, want.abs_sum / want.size as f64) {
         errs.push(format!("mean0 {} != {}", got.mean0, want.sum / want.size as f64));
     }
     if want.bases == 0 {
@@ -649,6 +650,17 @@ impl Check for C17 {
             let mut bed_text = String::new();
             let mut expected: Vec<(String, String, u32, u32)> = vec![];
             for ch in &c.chroms {
+                // empty regions (insertion points): inside a value, on its edges, in a gap: nothing
+                // is covered, so the covered-base mean and the extrema are NaN
+                for s in 0..=ch.len {
+                    out.count("regions", 1);
+                    out.count("empty_regions", 1);
+                    let entry = BedEntry { start: s, end: s, rest: format!("ins{}", s) };
+                    match stats_for_bed_item(&ch.name, entry, &mut rd) {
+                        Err(err) => out.fail("region_stats_error", &tags, format!("{} [{},{}): {}", ch.name, s, s, err)),
+                        Ok(g) => cmp_entry(&format!("stats_for_bed_item {} [{},{})", ch.name, s, s), &g, &RefStats { size: 0, bases: 0, sum: 0.0, abs_sum: 0.0, min: vec![], max: vec![] }, &tags, out),
+                    }
+                }
                 // regions inside the chromosome, reaching beyond its end and wholly beyond it
                 for s in 0..ch.len + 2 {
                     for e in s + 1..=ch.len + 3 {
